@@ -6,14 +6,15 @@
 EXTENDS GenOutcome
 CONSTANTS NLines, LineLen
 VARIABLES op, phase, out
-Init == op \in Ops /\ phase = 1 /\ out = [kind |-> "run", located |-> FALSE, line |-> 0, col |-> 0]
+Init == op \in Ops /\ phase = 1 /\ out = [kind |-> "run", located |-> FALSE, line |-> 0, col |-> 0, locs |-> <<>>]
 Fail == /\ out.kind = "run" /\ op # "none"
         /\ \E loc \in BOOLEAN, l \in 1..NLines, c \in 1..(LineLen + 1) :
-             out' = [kind |-> "err", located |-> loc, line |-> IF loc THEN l ELSE 0, col |-> IF loc THEN c ELSE 0]
+             out' = [kind |-> "err", located |-> loc, line |-> IF loc THEN l ELSE 0, col |-> IF loc THEN c ELSE 0,
+                     locs |-> IF loc THEN <<[known |-> TRUE, line |-> l, col |-> c, nlines |-> NLines, linelen |-> LineLen, nodestart |-> TRUE]>> ELSE <<>>]
         /\ UNCHANGED <<op, phase>>
 Pass == /\ out.kind = "run"
         /\ IF phase < Len(Phases) THEN phase' = phase + 1 /\ out' = out
-           ELSE phase' = phase /\ out' = [kind |-> "ok", located |-> FALSE, line |-> 0, col |-> 0]
+           ELSE phase' = phase /\ out' = [kind |-> "ok", located |-> FALSE, line |-> 0, col |-> 0, locs |-> <<>>]
         /\ UNCHANGED op
 Next == Fail \/ Pass
 Doc == [nlines |-> NLines, linelen |-> LineLen]
